@@ -660,9 +660,14 @@ fn canon_keys(keys: &[(u64, u64)]) -> Sexp {
     Lst(out)
 }
 
-pub fn run(c: &Sexp) -> Sexp {
+/// release whatever the previous case on this thread (a panicking one) still holds
+pub fn reset() {
     exec::reset();
     drop(CTX.with(|x| std::mem::take(&mut *x.borrow_mut())));
+}
+
+pub fn run(c: &Sexp) -> Sexp {
+    reset();
     let len0 = verif_arena_len();
     let body = c.at(0).clone();
     let root = Owner::new();
